@@ -204,6 +204,7 @@ def run_config(cfg, e):
             obl.append((implies(snot(same), m.n_clusters == mx + 1), 'n_clusters after curation'))
         else:
             obl.append((m.sparse_clusters is m.sparse_templates, 'uncurated dataset: cluster waveforms are the template waveforms'))
+            obl.append((m.n_clusters == T, 'uncurated dataset: as many clusters as templates'))
         e.prove_all(obl)
         # raw traces
         if ds.raw is not None:
